@@ -43,6 +43,37 @@ CHECKS = {
             'exact-size heap buffer under ASan) and the vector length, and encoded_byte_size for fixed types.',
             'Values reach the C++ object by decoding canonical bytes, so states a decode cannot produce are reached only '
             'through the listed mutations.', '4 C05'),
+    'C06': ('FE', 'fault_enumeration',
+            'exhaustive single-fault (thorough: double-fault) enumeration over valid encodings plus all short byte strings, '
+            'on the real Python decoder with a deterministic call budget',
+            'From every valid encoding of the fault universe (all codec cells, a level-1 core, sampled level 2/3; both byte '
+            'orders): every proper prefix, extensions, every control word replaced by 13+ boundary values, every byte xor 01 / '
+            'xor 80 / FF; plus all strings of length <= 6 (8) over a 5-byte alphabet for 23 small schemas. decode() must return '
+            'or raise ProphyError within 4x the Python-call count of the largest valid decode; returned messages must encode '
+            'and re-decode to a fixpoint; tracemalloc bounds allocation on large control values.',
+            'Promptness is measured in Python-level calls (sys.setprofile), not wall time; memory is measured on control-word '
+            'faults only.', '4 C06'),
+    'C07': ('FE+CPP', 'fault_enumeration',
+            'the same exhaustive fault menu fed to the compiled C++ full decoder under ASan+UBSan from exact-size heap buffers',
+            'Every input of the C06 menu (little and big endian) is decoded by the driver built from prophyc --cpp_full_out '
+            'and the shipped headers: no sanitizer report, allocation through operator new <= 4 KiB + 512 x input length '
+            '(single request capped at 1 MiB), and an accepted input must re-encode to exactly its own length.',
+            'x86-64 / clang 14; the enum-range check reports without aborting so one recorded finding does not hide others.',
+            '4 C07'),
+    'C08': ('SSE+RAW', 'model_checking',
+            'bounded exhaustive comparison of g++ offsetof/sizeof/alignof of every generated raw struct, part and union '
+            'with reference wire offsets',
+            'Every struct/union of every explored state is generated with --cpp_out and a table program prints sizeof, alignof '
+            'and offsetof of every member, has_ flag, counter, discriminator, arm and partN member; all must equal the '
+            'reference layout (offsets inside partN relative to the part).', 'GCC x86-64 ABI only (as the property states).',
+            '4 C08'),
+    'C09': ('SSE+RAW', 'model_checking',
+            'bounded exhaustive schema-state x value exploration of prophy::swap on big-endian encodings under ASan with canaries',
+            'For every state x value the big-endian canonical bytes are placed at an 8-aligned address in an exact, canary-'
+            'framed heap block; after prophy::swap<T> the block must hold the little-endian canonical bytes, canaries intact, '
+            'and the returned pointer must be start + aligned length (greedy tail: prefix converted, member address returned).',
+            'little-endian host; array lengths residue-complete mod 8 so unaligned dynamic ends precede blocks of every alignment.',
+            '4 C09'),
     'C10': ('AHE', 'model_checking',
             'explicit-state BFS over API operation sequences on real message objects against a plain dict/list model',
             'Breadth-first search over the operation alphabet (all field kinds, good, out-of-range and wrongly typed '
@@ -112,6 +143,11 @@ def main():
             'add_only': True,
         },
         'engines': [
+            {'name': 'FE', 'path': 'vf/faults.py', 'serves_properties': ['C06', 'C07'],
+             'kind_free_text': 'fault enumerator: complete single/double deviation menu from valid encodings (prefixes, '
+                               'extensions, control-word and byte substitutions) plus exhaustive short strings'},
+            {'name': 'SSE+RAW', 'path': 'vf/cppraw.py', 'serves_properties': ['C08', 'C09'],
+             'kind_free_text': 'schema-state explorer on the raw C++ codec: offsetof tables and swap driver built with g++'},
             {'name': 'AHE', 'path': 'vf/ahe.py', 'serves_properties': ['C10', 'C11'],
              'kind_free_text': 'API-history explorer: explicit-state BFS over operation sequences on real objects, states '
                                'reached by replay on fresh objects, canonical-state deduplication'},
